@@ -29,6 +29,20 @@ fn main() {
         let r = backup::db_reader(&args[2], args[3].parse().unwrap_or(1000));
         std::process::exit(if r.is_ok() { 0 } else { 2 });
     }
+    if args[1] == "db-reader-pinned" {
+        let r = backup::reader_pinned(&args[2], args[3].parse().unwrap_or(4), &args[4]);
+        if let Err(e) = &r {
+            eprintln!("{e:?}");
+        }
+        std::process::exit(if r.is_ok() { 0 } else { 2 });
+    }
+    if args[1] == "restore-pin-probe" {
+        let r = backup::pin_probe(&args[2], &args[3]);
+        if let Err(e) = &r {
+            eprintln!("{e:?}");
+        }
+        std::process::exit(if r.is_ok() { 0 } else { 2 });
+    }
     if args[1] == "restore-cache-probe" {
         let r = backup::cache_probe(&args[2], &args[3]);
         if let Err(e) = &r {
